@@ -86,6 +86,15 @@ def handle (cmd : String) (args : List Sx) : String :=
     match SearcherCommon.parseCfg cfg, SearcherCommon.parseMatcher m, inp.bytes?, SearcherCommon.parseSink sink with
     | some cfg, some mk, some inp, some σ => SearcherCommon.showRun (Searcher.searchSlice cfg (mk inp false) σ inp)
     | _, _, _, _ => "bad-op"
+  -- `c02.lb2 cfg inp1 (script …) (ops …) inp2 (script …) (ops …)`: one buffer used for two readers in
+  -- sequence (`clear` in between); the transcript of the SECOND reader
+  | "c02.lb2", [cfg, inp1, script1, ops1, inp2, script2, ops2] =>
+    match parseCfg cfg, inp1.bytes?, parseScript script1, parseOps ops1, inp2.bytes?, parseScript script2,
+          parseOps ops2 with
+    | some cfg, some inp1, some script1, some ops1, some inp2, some script2, some ops2 =>
+      let s1 := (run (LB.init cfg) ⟨inp1, script1, 0⟩ ops1).1
+      ";".intercalate (transcript s1.clear ⟨inp2, script2, 0⟩ ops2)
+    | _, _, _, _, _, _, _ => "bad-op"
   | "c02.spec", [cfg, inp, a, n] =>
     match parseCfg cfg, inp.bytes?, a.nat?, n.nat? with
     | some cfg, some inp, some a, some n => toHex (window (view cfg inp) a n)
